@@ -1,6 +1,7 @@
 package types
 
 import (
+	"bytes"
 	"io"
 	"math"
 
@@ -373,6 +374,20 @@ func (t *TupleType) Parameters() []px.Value {
 		params = append(params, t.size.SizeParameters()...)
 	}
 	return params
+}
+
+// ToKey writes the size that Equals compares (the given one or else the one implied by the number of types) so that
+// a Tuple with an explicit size has the same key as the equal Tuple where that size is implied
+func (t *TupleType) ToKey(b *bytes.Buffer) {
+	b.WriteByte(1)
+	b.WriteByte(HkType)
+	appendElementKey(b, stringValue(t.Name()))
+	for _, c := range t.types {
+		appendElementKey(b, c)
+	}
+	for _, p := range t.givenOrActualSize.SizeParameters() {
+		appendElementKey(b, p)
+	}
 }
 
 func (t *TupleType) ToString(b io.Writer, s px.FormatContext, g px.RDetect) {
